@@ -353,6 +353,37 @@ def run_smc(b: Builder, sc, seed):
     return events
 
 
+_FIXED = []
+
+
+def _fixed_alg_class():
+    """An SMCAlgorithm that ignores the key it is given and runs `inner` with its own key."""
+    if _FIXED:
+        return _FIXED[0]
+    from typing import Any
+    from genjax import Pytree
+    from genjax.inference.smc import SMCAlgorithm
+
+    @Pytree.dataclass
+    class FixedKey(SMCAlgorithm):
+        inner: Any
+        key0: Any
+
+        def get_num_particles(self):
+            return self.inner.get_num_particles()
+
+        def get_final_target(self):
+            return self.inner.get_final_target()
+
+        def run_smc(self, key):
+            return self.inner.run_smc(self.key0)
+
+        def run_csmc(self, key, retained):
+            return self.inner.run_csmc(self.key0, retained)
+    _FIXED.append(FixedKey)
+    return FixedKey
+
+
 def run_change(b: Builder, sc, seed):
     import jax
     import numpy as np
@@ -370,9 +401,15 @@ def run_change(b: Builder, sc, seed):
                 grow=int(bool(sc.get("grow"))),
                 propkind=(b.props[sc["prop"]]["kind"] if sc["prop"] != "none" else "none"))
 
+    fixed_cls = _fixed_alg_class()
+
     def f(key):
-        pc = alg.run_smc(key)
-        pc2 = ChangeTarget(alg, T2).run_smc(key)
+        # the previous algorithm is pinned to its own key k0, so the comparison does not depend on how ChangeTarget
+        # derives the key it hands to `prev` (an earlier version compared with alg.run_smc(key) and thereby assumed that
+        # ChangeTarget passes its key on unchanged -- which was the key-reuse defect KF-C26-4)
+        k0, k1 = jax.random.split(key)
+        pc = alg.run_smc(k0)
+        pc2 = ChangeTarget(fixed_cls(alg, k0), T2).run_smc(k1)
         return (b.project(m, pc.get_particles().get_choices()), pc.get_log_weights(),
                 b.project(m2, pc2.get_particles().get_choices()), pc2.get_log_weights(),
                 pc2.get_log_marginal_likelihood_estimate())
@@ -781,11 +818,15 @@ def _select(prop_id, cases, tier, seed):
     rng.shuffle(chg)
     if tier == "quick":
         # stratified: every (model, proposal, K) class once (seeded choice of the observed values), then fill
+        # a generative-function proposal is most interesting when the model's FIRST call site is sampled by the model
+        # itself (shared keys between proposal and model show there): such scenarios represent their class
+        smc.sort(key=lambda c: 0 if (c["prop"].endswith("_m") and c["o"][0] == -1) else 1)
         seen, pick, rest = set(), [], []
         for c in smc:
             k = (c["model"], c["prop"], c["K"])
             (pick if k not in seen else rest).append(c)
             seen.add(k)
+        pick.sort(key=lambda c: 0 if c["prop"].endswith("_m") else 1)     # generative-function (Marginal) proposals first
         smc = (pick + rest)[:32]
         seen, pick, rest = set(), [], []
         for c in chg:
